@@ -89,6 +89,8 @@ pub enum OOp {
     /// try_read (must succeed, value compared), then try_write (must succeed) and set through it
     TryGuards(usize, Val),
     Clone(usize),
+    /// `Clone::clone_from`: handle h is re-pointed to a fresh, unrelated observable (needs >= 2 owners)
+    CloneFromOther(usize),
     DropOwner(usize),
     Downgrade(usize),
     Upgrade(usize),
@@ -117,6 +119,8 @@ pub struct ObsHistory {
     pub ops: Vec<OOp>,
     /// 0 = the usual bounds (5 subscribers, 4 owners, 3 weak references); otherwise the bound for all three
     pub many: usize,
+    /// every subscriber is polled with one and the same waker (its own) for the whole history
+    pub same_waker: bool,
 }
 
 impl ObsHistory {
@@ -167,6 +171,10 @@ pub trait Fl {
     fn new_u_default() -> Self::U;
     fn new_s_default() -> Self::S;
     fn s_clone(s: &Self::S) -> Self::S;
+    fn s_clone_from(a: &mut Self::S, b: &Self::S);
+    /// tag (element identity) of the value currently stored
+    fn s_tag(s: &Self::S) -> u32;
+    fn u_tag(u: &Self::U) -> u32;
     fn s_downgrade(s: &Self::S) -> Self::W;
     fn s_counts(s: &Self::S) -> (usize, usize, usize, usize);
     fn s_subscribe(s: &Self::S) -> Self::Sub;
@@ -350,6 +358,15 @@ impl Fl for SyncFl {
     fn s_clone(s: &Self::S) -> Self::S {
         s.clone()
     }
+    fn s_clone_from(a: &mut Self::S, b: &Self::S) {
+        a.clone_from(b)
+    }
+    fn s_tag(s: &Self::S) -> u32 {
+        s.read().tr.tag
+    }
+    fn u_tag(u: &Self::U) -> u32 {
+        Observable::get(u).tr.tag
+    }
     fn s_downgrade(s: &Self::S) -> Self::W {
         s.downgrade()
     }
@@ -508,6 +525,15 @@ impl Fl for AsyncFl {
     fn s_clone(s: &Self::S) -> Self::S {
         s.clone()
     }
+    fn s_clone_from(a: &mut Self::S, b: &Self::S) {
+        a.clone_from(b)
+    }
+    fn s_tag(s: &Self::S) -> u32 {
+        bo(s.read()).tr.tag
+    }
+    fn u_tag(u: &Self::U) -> u32 {
+        Observable::get_async(u).tr.tag
+    }
     fn s_downgrade(s: &Self::S) -> Self::W {
         s.downgrade()
     }
@@ -586,8 +612,11 @@ pub struct OFacts {
 
 struct SubM {
     observed: u64,
-    /// flag of the last poll if Pending, with the model version at that poll
-    pending: Option<(Arc<FlagWaker>, u64)>,
+    /// flag of the last poll if Pending, with the model version at that poll and the flag's wake count
+    /// at that poll
+    pending: Option<(Arc<FlagWaker>, u64, u64)>,
+    /// the subscriber's own waker in same-waker mode
+    own: Option<(Arc<FlagWaker>, std::task::Waker)>,
     /// a local reset() since the last poll (next readiness needs no wake)
     dirty: bool,
 }
@@ -671,6 +700,7 @@ fn run_inner<F: Fl>(h: &ObsHistory) -> Result<OFacts, Div> {
                     break 'op Res::Skipped;
                 }
                 let old = m.value;
+                let tag_before = if m.unique { F::u_tag(w.uniq.as_ref().unwrap()) } else { F::s_tag(&w.owners[hh % w.owners.len()]) };
                 // model
                 let (expect, notifies) = match kind {
                     0 => (Res::Prev(old), true),
@@ -740,6 +770,13 @@ fn run_inner<F: Fl>(h: &ObsHistory) -> Result<OFacts, Div> {
                 };
                 if got != expect {
                     bail!("C01", "step {step} {op:?}: returned {got:?}, expected {expect:?} (value before {old:?})");
+                }
+                // a conditional setter that does not store changes nothing: the stored instance stays
+                if (kind == 1 || kind == 2) && !notifies {
+                    let tag_after = if m.unique { F::u_tag(w.uniq.as_ref().unwrap()) } else { F::s_tag(&w.owners[hh % w.owners.len()]) };
+                    if tag_after != tag_before {
+                        bail!("C01", "step {step} {op:?}: returned None (nothing to store) but the stored value was replaced by the equal value handed in");
+                    }
                 }
                 if stores {
                     m.value = newv;
@@ -887,6 +924,26 @@ fn run_inner<F: Fl>(h: &ObsHistory) -> Result<OFacts, Div> {
                     w.owners.push(c);
                     Res::Unit
                 }
+                OOp::CloneFromOther(hh) => {
+                    if m.unique || w.owners.len() < 2 {
+                        break 'op Res::Skipped;
+                    }
+                    let i = hh % w.owners.len();
+                    let mut moved = w.owners.remove(i);
+                    let other = F::new_s(Hk::new((1, 1)));
+                    F::s_clone_from(&mut moved, &other);
+                    let c = F::s_counts(&other);
+                    let c2 = F::s_counts(&moved);
+                    if c != (2, 0, 2, 0) || c2 != (2, 0, 2, 0) {
+                        bail!("C19", "step {step} clone_from: the other observable reports {c:?} / {c2:?} through its two handles, live = (2, 0, 2, 0)");
+                    }
+                    if F::s_get(&moved) != (1, 1) {
+                        bail!("C01", "step {step} clone_from: the re-pointed handle does not read the other observable's value");
+                    }
+                    drop(moved);
+                    drop(other);
+                    Res::Unit
+                }
                 OOp::DropOwner(hh) => {
                     if m.unique {
                         match w.uniq.take() {
@@ -995,7 +1052,7 @@ fn run_inner<F: Fl>(h: &ObsHistory) -> Result<OFacts, Div> {
                         }
                     };
                     w.subs.push(Some(sub));
-                    m.subs.push(Some(SubM { observed: if reset { 0 } else { m.version }, pending: None, dirty: false }));
+                    m.subs.push(Some(SubM { observed: if reset { 0 } else { m.version }, pending: None, own: None, dirty: false }));
                     f.subs_created += 1;
                     Res::Unit
                 }
@@ -1006,7 +1063,13 @@ fn run_inner<F: Fl>(h: &ObsHistory) -> Result<OFacts, Div> {
                     }
                     let i = live[si % live.len()];
                     let sub = w.subs[i].as_mut().unwrap();
-                    let (flag, waker) = flag_waker();
+                    let (flag, waker) = if h.same_waker {
+                        let own = m.subs[i].as_mut().unwrap().own.get_or_insert_with(flag_waker);
+                        (own.0.clone(), own.1.clone())
+                    } else {
+                        flag_waker()
+                    };
+                    let wakes_before = flag.wakes.load(std::sync::atomic::Ordering::SeqCst);
                     let mut cx = Context::from_waker(&waker);
                     let r = match op {
                         OOp::Poll(_) => F::sub_poll_stream(sub, &mut cx),
@@ -1026,8 +1089,10 @@ fn run_inner<F: Fl>(h: &ObsHistory) -> Result<OFacts, Div> {
                         bail!(t, "step {step} {op:?} on subscriber {i}: {r:?}, expected {expect:?} (observed version {}, current {}, closed {})", sm.observed, m.version, m.closed);
                     }
                     // C02: ready again only after the waker of the last Pending poll was woken
-                    if let Some((pf, _)) = &sm.pending {
-                        if r.is_ready() && !sm.dirty && !pf.woken() {
+                    if let Some((pf, _, at)) = &sm.pending {
+                        // woken between the Pending poll and this poll (in same-waker mode pf is this poll's waker too)
+                        let woken = if h.same_waker { wakes_before > *at } else { pf.wakes.load(std::sync::atomic::Ordering::SeqCst) > *at };
+                        if r.is_ready() && !sm.dirty && !woken {
                             bail!("C02", "step {step}: subscriber {i} became ready although the waker of its last Pending poll was never woken");
                         }
                     }
@@ -1042,7 +1107,8 @@ fn run_inner<F: Fl>(h: &ObsHistory) -> Result<OFacts, Div> {
                             f.none += 1;
                         }
                         Poll::Pending => {
-                            sm.pending = Some((flag, m.version));
+                            let at = flag.wakes.load(std::sync::atomic::Ordering::SeqCst);
+                            sm.pending = Some((flag, m.version, at));
                             f.pending += 1;
                         }
                     }
@@ -1100,7 +1166,7 @@ fn run_inner<F: Fl>(h: &ObsHistory) -> Result<OFacts, Div> {
                     };
                     let observed = if reset { 0 } else { m.subs[i].as_ref().unwrap().observed };
                     w.subs.push(Some(c));
-                    m.subs.push(Some(SubM { observed, pending: None, dirty: false }));
+                    m.subs.push(Some(SubM { observed, pending: None, own: None, dirty: false }));
                     f.subs_created += 1;
                     Res::Unit
                 }
@@ -1123,11 +1189,11 @@ fn run_inner<F: Fl>(h: &ObsHistory) -> Result<OFacts, Div> {
         let mut pending_now = 0;
         for (i, sm) in m.subs.iter().enumerate() {
             let Some(sm) = sm else { continue };
-            if let Some((flag, at)) = &sm.pending {
+            if let Some((flag, at, wakes_at)) = &sm.pending {
                 pending_now += 1;
                 if m.version > *at || m.closed {
                     f.wake_obligations += 1;
-                    if !flag.woken() {
+                    if flag.wakes.load(std::sync::atomic::Ordering::SeqCst) <= *wakes_at {
                         bail!(
                             "C02",
                             "after step {step} {op:?}: subscriber {i} was Pending (version {at}), {} but the waker of that poll was never woken",
@@ -1171,9 +1237,9 @@ fn run_inner<F: Fl>(h: &ObsHistory) -> Result<OFacts, Div> {
     }
     for (i, sm) in m.subs.iter().enumerate() {
         let Some(sm) = sm else { continue };
-        if let Some((flag, _)) = &sm.pending {
+        if let Some((flag, _, wakes_at)) = &sm.pending {
             f.wake_obligations += 1;
-            if !flag.woken() {
+            if flag.wakes.load(std::sync::atomic::Ordering::SeqCst) <= *wakes_at {
                 bail!("C02", "at the end: subscriber {i} was Pending when the last owner was dropped and its waker was never woken");
             }
         }
